@@ -6,7 +6,11 @@ Bounded-exhaustive enumeration against a reference frontend:
                      x (local / parameter / for-init / condition / init-capture / member) or not and uses x in every
                      meaningful form (x, ::x, this->x, N::x, C::x) before its declaration and after its children;
                      each with and without a global x; the C subset (function, block, for, if) also as C
-  overload programs  every set of <= 3 overloads out of 12 parameter lists x 12 call arguments
+  overload programs  every set of <= 3 overloads out of 12 parameter lists x 12 call arguments; and two-parameter
+                     overloads: every set of <= 3 parameter lists (T1,T2) over {int,long,double,short} plus every
+                     set of 4 over {int,long,double} (thorough: every set of <= 4 over all 16), each called with
+                     all 25 pairs of variables of type int/short/long/double/char (one call per line; a call clang
+                     rejects as ambiguous is not judged)
 Hundreds of programs share one file (unique name suffixes), so one `clang -Xclang -ast-dump=json` run and one
 `cppcheck --dump` run judge them all; results are mapped back by line ranges.  Only programs without a clang error
 count.  Oracle (vlib/nameres.py): (i) a linked variable use names the declaration clang names, (ii) declarations
@@ -46,6 +50,52 @@ def overload_class(prog, p, ref, src):
     return "overload:arg=%s:clang=f(%s):cppcheck=f(%s)" % (arg, want, got)
 
 
+_RANK = {"char": 1, "short": 2, "int": 3, "long": 4}
+
+
+def _conv(a, p):
+    """E exact, P integral promotion, W other integral widening, N integral narrowing, F integral<->floating"""
+    if a == p:
+        return "E"
+    if a == "double" or p == "double":
+        return "F"
+    if a in ("short", "char") and p == "int":
+        return "P"
+    return "W" if _RANK[p] > _RANK[a] else "N"
+
+
+def overload2_class(item, p, src):
+    """Class of a two-parameter overload disagreement in terms of the C++ conversions involved:
+    is clang's choice 'lossless' (every argument exact / promoted / widened), does it have strictly more exactly
+    matching arguments than every other lossless candidate ('unique-most-exact') or not ('tie'), and is the candidate
+    cppcheck linked lossless or lossy (needs a narrowing or integral<->floating conversion)."""
+    lines = src.splitlines()
+    ty = dict(scopegen.ATYPES)
+
+    def par(poslist):
+        try:
+            l = lines[poslist[0][0] - 1]
+            return tuple(l[l.index("f(") + 2:l.index(")")].replace(" ", "").split(","))
+        except (IndexError, ValueError):
+            return None
+    args = (ty[item[1][0]], ty[item[1][1]])
+    c, k = par(p["clang_pos"]), par(p["cppcheck_pos"])
+    cands = [tuple(x) for x in item[0]]
+    if c not in cands or k not in cands:
+        return "overload2:unmapped:args=(%s,%s)" % args
+
+    def kinds(pl):
+        return "".join(_conv(a, t) for a, t in zip(args, pl))
+    lossless = [x for x in cands if not set(kinds(x)) & set("FN")]
+    if c in lossless:
+        ec = kinds(c).count("E")
+        rel = "unique-most-exact" if all(ec > kinds(x).count("E") for x in lossless if x != c) else "tie-on-exact-count"
+        cl = "lossless:" + rel
+    else:
+        cl = "lossy"
+    return "overload2:clang=%s:cppcheck=%s" % (cl, "lossless" if k in lossless else "lossy")
+
+
 def analyse(kind, lang, gx, items, tag0=0):
     """Render `items` into one file, run clang and cppcheck once, judge.  -> result dict"""
     gc.disable()
@@ -53,12 +103,18 @@ def analyse(kind, lang, gx, items, tag0=0):
         trees = [scopegen.parse(s) for s in items]
         src, ranges, tags = scopegen.render_batch_tagged(trees, gx, lang, tag0=tag0)
         rules = ("var", "varid-unique", "call")
+    elif kind == "overload2":
+        # items = overload sets on entry; one judged unit per call line afterwards
+        src, ranges, items = scopegen.render_overloads2([tuple(tuple(x) for x in st) for st in items], tag0=tag0)
+        tags = None
+        rules = ("call", "var", "varid-unique")
     else:
         src, ranges = scopegen.render_overloads(items, tag0=tag0)
         tags = None
         rules = ("call", "var", "varid-unique")
     name = "t." + lang
     res = {"programs": len(items), "rejected_by_clang": 0, "stats": {}, "problems": [], "error": None}
+    res["nontrivial"], res["vacuous_programs"] = [], 0
     with _ws({name: src}) as ws:
         root, errs, errtext = clangref.run(name, lang, ws.dir)
         if root is None:
@@ -89,7 +145,7 @@ def analyse(kind, lang, gx, items, tag0=0):
     jc = collections.Counter(prog_of(l) for l in st.pop("_judged_call_lines"))
     res["stats"] = st
     res["nontrivial"] = [items[i] if kind == "scope" else list(items[i]) for i in range(len(items))
-                         if i not in rejected and (jv.get(i) or (kind == "overload" and jc.get(i)))]
+                         if i not in rejected and (jv.get(i) or (kind != "scope" and jc.get(i)))]
     res["vacuous_programs"] = len(items) - len(rejected) - len(res["nontrivial"])
     for p in probs:
         i = prog_of(p["line"])
@@ -97,6 +153,8 @@ def analyse(kind, lang, gx, items, tag0=0):
             continue
         if kind == "overload" and p["rule"] == "call":
             key = overload_class(items[i], p, ref, src)
+        elif kind == "overload2" and p["rule"] == "call":
+            key = overload2_class(items[i], p, src)
         else:
             key = nameres.classify(p)
         a, b = [(a, b) for a, b, k in ranges if k == i][0]
@@ -121,6 +179,9 @@ def jobs_for(tier):
     ov = list(scopegen.overload_programs(3, 12, 12))
     for i in range(0, len(ov), 600):
         yield ("overload", "cpp", 0, ov[i:i + 600], i)
+    o2 = [[list(x) for x in st] for st in scopegen.overload2_sets(tier)]
+    for i in range(0, len(o2), 140):
+        yield ("overload2", "cpp", 0, o2[i:i + 140], i)
     for lang in ("cpp", "c"):
         full = (t for n in range(1, nfull + 1) for t in scopegen.programs(n, lang=lang))
         chains = (t for t in scopegen.programs(nchain, lang=lang) if scopegen.is_chain(t))
@@ -146,15 +207,23 @@ def jobs_for(tier):
 
 
 def describe(kind, prog):
-    return prog if kind == "scope" else scopegen.show_overload((tuple(prog[0]), prog[1]))
+    if kind == "scope":
+        return prog
+    if kind == "overload2":
+        return scopegen.show_overload2(prog)
+    return scopegen.show_overload((tuple(prog[0]), prog[1]))
 
 
 def replay_case(a):
     kind = a["kind"]
-    items = [a["program"]] if kind == "scope" else [(tuple(a["program"][0]), a["program"][1])]
     if kind == "scope":
+        items = [a["program"]]
         src = scopegen.render_batch([scopegen.parse(a["program"])], a["global_x"], a["lang"])[0]
+    elif kind == "overload2":
+        items = [a["program"][0]]        # the whole overload set with all 25 calls; the recorded call is one of them
+        src = scopegen.render_overloads2([tuple(tuple(x) for x in a["program"][0])])[0]
     else:
+        items = [(tuple(a["program"][0]), a["program"][1])]
         src = scopegen.render_overloads(items)[0]
     print("program %s (lang %s, global x %s):" % (describe(kind, a["program"]), a["lang"], a.get("global_x")))
     for i, l in enumerate(src.splitlines()):
@@ -218,8 +287,15 @@ def main(tier, replay=None):
                        "message": p["msg"], "line_in_standalone_rendering": p["rel_line"]}
                 if key not in known_keys and key not in confirmed and len(confirmed) < 20:
                     # reproduce outside the batch before reporting
-                    alone = analyse(kind, lang, gx, [p["program"] if kind == "scope" else (tuple(p["program"][0]), p["program"][1])])
-                    confirmed[key] = any(q["key"] == p["key"] for q in alone["problems"])
+                    if kind == "scope":
+                        one = [p["program"]]
+                    elif kind == "overload2":
+                        one = [p["program"][0]]
+                    else:
+                        one = [(tuple(p["program"][0]), p["program"][1])]
+                    alone = analyse(kind, lang, gx, one)
+                    confirmed[key] = any(q["key"] == p["key"] and (kind != "overload2" or q["program"] == p["program"])
+                                         for q in alone["problems"])
                     art["reproduced_standalone"] = confirmed[key]
                 ctx.violation(key, "%s: %s" % (describe(kind, p["program"]), p["msg"]), art)
     tot = dict(totals)
@@ -235,7 +311,8 @@ def main(tier, replay=None):
         rule="all scope-grammar programs with <= %d scopes plus all %d-scope %s (kinds N S C F O B R I L; per scope: "
              "declaration variant x all meaningful use forms), with and without a global x (quick: the chains only with), "
              "C subset also as C; all "
-             "overload sets of size <= 3 over 12 parameter lists x 12 arguments; batched %d programs per file; "
+             "overload sets of size <= 3 over 12 parameter lists x 12 arguments; all two-parameter overload sets (see "
+             "module docstring) x 25 argument pairs; batched %d programs per file; "
              "evaluation = one program clang accepts; distinct/nontrivial = a program in which at least one linked "
              "use or call was judged" % (nfull, nchain, "chains" if tier == "quick" else "programs (deadline permitting)",
                                          PER_FILE))
